@@ -781,6 +781,9 @@ mod el {
                                 .iter()
                                 .chain(s.pending.iter())
                                 .filter(|r| matches!(r.kind, Kind::Publish | Kind::PubRel))
+                                // (a publish without a packet id was never sent: it is a request that `clean()` moved
+                                // from the channel into the pending queue, not something the refused packet changed)
+                                .filter(|r| r.pkid != 0)
                                 .map(|r| format!("{:?}/{}/{}", r.kind, r.pkid, r.payload))
                                 .collect();
                             v.sort();
